@@ -96,7 +96,7 @@ Print Assumptions C09_sptr_solve_serial.
 
 (* ---------------------------------------------------------------------------------- *)
 (* A3  gauss_seidel::parallel_sweep<forward> (any S), with the level loop as it is after
-   the fix /repo f214b60 (second loop over the row: level[c] = max(level[c], l+1) for the
+   the fix /repo dff00c6 (second loop over the row: level[c] = max(level[c], l+1) for the
    columns that are swept later).  For EVERY sparsity pattern (no structural symmetry
    needed), both sweep directions, every nt >= 1:                                        *)
 (* ... every row appears in exactly one task *)
@@ -135,7 +135,7 @@ Theorem C09_gs_parallel_sweep_serial (S : Scalar) forward (A : crs S) nt rhs l (
 Proof. exact (gs_parallel_sweep_serial forward A nt rhs l x). Qed.
 Print Assumptions C09_gs_parallel_sweep_serial.
 
-(* HISTORICAL (documentation of finding C09-gs-antidep, fixed by /repo f214b60).  The level
+(* HISTORICAL (documentation of finding C09-gs-antidep, fixed by /repo dff00c6).  The level
    rule BEFORE the fix (GsSched.gs_levels_old: only the row's own already-swept neighbours)
    violates the property on structurally non-symmetric patterns:
    Witness 1 (data race): A = [[1,1],[0,1]], f = (10,1), x = (0,5), 4 threads: rows 0 and 1
